@@ -159,7 +159,7 @@ def gen_cases(ctx):
 
 
 def global_cases(ctx):
-    """every split of {task ta, task tb, context ca, context cb, variable va, variable vb} between global and project file"""
+    """every split of {task ta (runs in context ca), task tb (in cb), context ca, context cb, variable va, variable vb} between global and project file"""
     items = ["ta", "tb", "ca", "cb", "va", "vb"]
     jobs = []
     for mask in range(64):
@@ -170,7 +170,8 @@ def global_cases(ctx):
             tgt = g if mask >> k & 1 else p
             where[it] = "global" if mask >> k & 1 else "project"
             if it[0] == "t":
-                tgt["tasks"][it] = {"command": ['echo %s >> "$PROJ/out"' % it]}
+                # each task runs in a context that may be defined in the OTHER file
+                tgt["tasks"][it] = {"command": ['echo %s:$X >> "$PROJ/out"' % it], "context": "c" + it[1]}
             elif it[0] == "c":
                 tgt["contexts"][it] = {"env": {"X": it}}
             else:
@@ -274,7 +275,7 @@ def run(ctx):
                                            "case": case, "observed": {"rc": r["rc"], "out": txt[-600:], "err": (r.get("err") or "")[-300:]}})
             else:
                 lines = (r["files"].get("out") or "").split()
-                if r["rc"] != 0 or lines != ["VA-VB", "ta", "tb"]:
+                if r["rc"] != 0 or lines != ["VA-VB", "ta:ca", "tb:cb"]:
                     res.violations.append({"class": None, "what": "variables / tasks of the global and project files are not all usable from the project",
                                            "case": case, "observed": {"rc": r["rc"], "out": lines, "err": (r.get("err") or "")[-400:]}})
     res.exhaustive = False
